@@ -183,10 +183,10 @@ import closure
 H("linux_getters", src="h_linux_port.c", props=["C04"], port_model=False, unwind=8,
   enforce=["lltd_port_get_mtu", "lltd_port_get_if_type", "lltd_port_get_link_speed_100bps"],
   cc_flags=["-DLINUX"], must_reach=["end", "ok"], no_native=True)
-H("esp32_frame", src="h_esp32.c", props=["C01"], unwind=8,
+H("esp32_frame", src="h_esp32.c", props=["C01", "C18"], unwind=8, safety_props=["C18"], shards=8,
   unwindset={"h_esp32_frame.0": 42, "h_esp32_frame.1": 42, "h_esp32_frame.2": 42, "switch_state_mapping.0": 130,
              "switch_state_session.0": 130, "switch_state_enumeration.0": 130},
-  must_reach=["end", "handled", "short"], no_native=True,
+  must_reach=["end", "handled", "short", "degraded"], no_native=True,
   bounded="told lengths 0..40 (the header guard is at 32); the buffer object has exactly the told length")
 
 _HANDLERS = ["send_probe", "parse_emit", "parse_emit_strict", "parse_probe", "parse_query", "parse_query_mtu60", "parse_query_mtu72",
